@@ -808,8 +808,23 @@ class Context:
             value = args[0] if args else UNDEFINED
             in_progress = []  # containers being serialized (cycle detection)
 
-            def serialize(v):
+            def own_value(obj, key):
+                """obj[key] for an own key: an accessor property is read through its getter."""
+                if obj.is_accessor(key):
+                    getter = obj._getters.get(key)
+                    if getter is None:
+                        return UNDEFINED
+                    if isinstance(getter, JSFunction):
+                        return ctx._call_function(getter, [], obj)
+                    return from_python(getter())
+                return obj.get(key)
+
+            def serialize(v, key=""):
                 """SerializeJSONProperty: the JSON text, or None for undefined."""
+                if isinstance(v, JSObject) and not isinstance(v, JSCallableObject):
+                    to_json = v.get("toJSON")
+                    if isinstance(to_json, JSFunction):
+                        v = ctx._call_function(to_json, [key], v)
                 if v is NULL:
                     return "null"
                 if isinstance(v, bool):
@@ -829,13 +844,16 @@ class Context:
                 in_progress.append(v)
                 try:
                     if isinstance(v, JSArray):
-                        items = [serialize(elem) or "null" for elem in v._elements]
+                        items = [
+                            serialize(elem, str(i)) or "null"
+                            for i, elem in enumerate(v._elements)
+                        ]
                         return "[" + ",".join(items) + "]"
                     members = []
-                    for key in v.keys():
-                        text = serialize(v.get(key))
+                    for name in v.keys():
+                        text = serialize(own_value(v, name), name)
                         if text is not None:
-                            members.append(quote_json(key) + ":" + text)
+                            members.append(quote_json(name) + ":" + text)
                     return "{" + ",".join(members) + "}"
                 finally:
                     in_progress.pop()
